@@ -11,7 +11,9 @@ class Check(EngineCheck):
                 "LLBuild.Refine.refinement_final", "LLBuild.Refine.EngineImpl_sound_C07_cycle", "LLBuild.Refine.EngineImpl_sound_C05_quiescent",
                 "LLBuild.Refine.build_terminates", "LLBuild.Refine.EngineImpl_terminates", "LLBuild.Refine.EngineImpl_sound_C07_cycle_sized",
                 E + "engine_fingerprint_matches_model"]
-    mix = [(0.4, {"cyclic": True}), (0.3, {"cyclic": True, "malformed": True}), (0.15, {"cyclic": True, "cancel": True}), (0.15, {})]
+    mix = [(0.35, {"cyclic": True}), (0.25, {"cyclic": True, "malformed": True}), (0.15, {"cyclic": True, "cancel": True}), (0.1, {}),
+           # cycles that appear after an input changed and close through dependencies an earlier build recorded
+           (0.15, {"latent": True})]
     budget = (300, 3000)
     assumptions = EngineCheck.assumptions + [
         "'never stalls': for the transliterated engine it is the theorem EngineImpl_terminates (no build emits the stall or fuel marker, under the computable size condition histSized); on the real engine it is additionally watched by the harness's watchdog; 'a real cycle is always reported' is proved in the form C07_cycle_never_succeeds (no accepted history ends a build of a key in a cyclic set successfully) for cycles through value-carrying requests; cycles through must-follow / single-use edges and the absence of stalls are decided by the python reference evaluation of the demanded graph on the real engine's traces"]
